@@ -262,6 +262,32 @@ def run(chk):
             if after != before and hviol < 10:
                 hviol += 1
                 chk.violation('history', f'a query changed the caller\'s {kind}: {before} -> {after}', {'shape': kind, 'history': trail})
+    # consecutive calls whose (include, exclude) pairs are different SPLITS of one collection of categories: the same
+    # categories, moved between the two arguments from one call to the next
+    sviol = 0
+    for h in range(60 if not full else 600):
+        r = chk.rng
+        pool = [by_name[a] for a in r.sample(names, r.randint(2, 4))]
+        trail = []
+        for step in range(r.randint(3, 7)):
+            cut = [r.random() < 0.5 for _ in pool]
+            inc_s = [c for c, b_ in zip(pool, cut) if b_]
+            exc_s = [c for c, b_ in zip(pool, cut) if not b_]
+            q = r.choice(pool + [by_name[r.choice(names)]])
+            mk = r.choice([set, list, tuple])
+            inc_now, exc_now = sorted(x.name for x in inc_s), sorted(x.name for x in exc_s)
+            try:
+                mt = TC.match(q, include=mk(inc_s), exclude=mk(exc_s))
+                mt2 = HM.match(q, include=mk(inc_s), exclude=mk(exc_s))
+            except Exception as e:
+                mt = mt2 = 'err:' + type(e).__name__
+            trail.append((q.name, inc_now, exc_now))
+            chk.case(('resplit', h, step, tuple(inc_now), tuple(exc_now), q.name), kind='history-resplit')
+            want_m = bool(desc[q.name] & closure_of(set(inc_now), set(exc_now)))
+            if (mt != want_m or mt2 != want_m) and sviol < 10:
+                sviol += 1
+                chk.violation('history', f'consecutive calls over re-split collections, step {step}: match({q.name}, include={inc_now}, exclude={exc_now}) = {mt} / {mt2}, '
+                              f'expected {want_m}', {'shape': 'resplit', 'history': trail})
     chk.notes['histories'] = nhist
     # results are the caller's own: editing a returned set must not change any later answer
     rviol = 0
